@@ -1,29 +1,82 @@
-"""C14 — simplification preserves the DAE's solutions.   (work in progress: oracle part)"""
+"""C14 — simplification preserves the DAE's solutions.
+
+Real code: `pymoca.backends.casadi.model.Model.simplify` on generated Modelica models (parsed and
+generated in-process) that have a constructed unique solution: triangular systems with invertible
+diagonal (constant assignments in five spellings, positive/negative aliases in several spellings,
+alias chains, aliases to parameters/inputs/derivatives, affine definitions with parameter
+coefficients, scaled and negated equations, parameter-scaled alias equations, eliminable
+variables, bijective non-linear definitions), integer blocks with non-zero determinant, states with
+differential and initial equations — under sampled subsets of all simplification options
+(harness/gen/a10_simplify.py).
+
+Direct oracle (independent of the Lean model): the constructed solution zeroes the simplified dae
+and initial residual functions (exact: dyadic points); every recorded constant value and every
+recorded alias with its sign holds in the constructed solution; for affine models the Jacobian of
+the simplified residual in the remaining unknowns (exact, by evaluation differences) has full
+column rank over the rationals, i.e. the simplified system has no other solution.  An exception or
+an iteration-limit warning counts as "reports failure".
+
+Correspondence: pass by pass.  For every enabled pass of `_simplify_once` (and every iteration of
+the loop of `simplify`) the real model *before* the pass (obtained by running the real code with
+the later passes switched off) is serialised — every equation as its real MX tree (op/dep/name) —
+and given to the Lean model's function for that pass (driver `drv_c14`); the outcome is compared
+with the real model *after* the pass: variable lists and their order, `aliases` flags, the alias
+relation (canonical variables, classes, signs), number of kept equations, values of parameters and
+constants, and the value of every equation / initial equation / delay argument at exact random
+points (evaluated by the Lean `Ex.eval`).  The passes that are CasADi's own work (vector expansion
+of scalar models, the SX round trip) are checked to be value preserving; `substitute(...).is_zero()`
+answers used by the alias detection are observed on the real MX and handed to the model.
+"""
 from harness import corpus
 from harness.gen import a10_simplify as S
 
-DRIVERS = ["drv_c14"]
-RULE = "tbd"
-TRUSTED = []
-ASSUMPTIONS = []
 PROP = "C14"
+DRIVERS = ["drv_c14"]
+RULE = ("one case = one generated model (3-8 algebraic unknowns, 0-2 states, 1-5 parameters incl. parameter expressions, "
+        "1-2 constants, 0-2 inputs; equation and declaration order shuffled) with one sampled option set over the 14 "
+        "simplification options; streams: main (affine), nonlinear (bijective non-linear definitions), contradiction "
+        "(x = y with x = -y), iter (aliases that appear in the second iteration); non-trivial = the real simplify changed a "
+        "variable list or the number of equations; distinct = distinct (model text, option set)")
+TRUSTED = ["CasADi: `ca.substitute`, `Function.expand`, evaluation of MX functions at exactly representable points; its "
+           "on-the-fly rewriting and `is_zero` are observed on every run, not modelled (the Lean theorems quantify over every "
+           "value-preserving engine)",
+           "the option-prefix method: `_simplify_once` with the later options switched off stops exactly before the pass under test",
+           "Python's `re` for `eliminable_variable_expression` (the model receives the list of matching names)"]
+ASSUMPTIONS = ["scalar models (vector expansion is property C18); non-finite constants do not occur in equations",
+               "elimination of a differentiated state through eliminable_variable_expression is outside the model (generator: algebraic variables only)",
+               "reduce_affine_expression is covered by the direct oracle only (its result is a vector expression)",
+               "the generic alias test is sound only for equations that determine the tested symbol (affine with non-zero coefficient / bijective): "
+               "the property's own precondition, hypothesis `GzOk`/`InjIn` of the theorems"]
 
 
 def run(ctx):
     drv = ctx.driver(DRIVERS[0])
     for c in corpus.load(PROP):
         ctx.count("corpus")
-        S.check_case(ctx, PROP, c["case"] if "case" in c else c)
+        S.check_case(ctx, PROP, c["case"] if "case" in c else c, drv, S.tie_case)
     for case in S.gen_cases(ctx, PROP):
         if ctx.time_left() < 0:
             ctx.notes.append("stopped by the time budget after %d cases" % ctx.evaluations)
             break
         S.check_case(ctx, PROP, case, drv, S.tie_case)
+    ctx.extra["exhaustive"] = False
 
 
 def replay(ctx, payload):
     S.check_case(ctx, PROP, payload["case"], ctx.driver(DRIVERS[0]), S.tie_case)
 
 
-MANIFEST = dict(level_text="", level_note="", technique="")
+MANIFEST = dict(
+    level_text="Lean 4 theorems about an executable model of every pass of Model._simplify_once and of the loop of simplify "
+               "(expression trees over an arbitrary field): substitution lemma, soundness of every pass and of the whole "
+               "pipeline for all option sets and iteration counts (every original solution solves the simplified model; recorded "
+               "constants and alias signs hold), exactness (no solution lost or invented) of the individual passes under the "
+               "preconditions the property names; tied to the real code on every run by a pass-by-pass differential "
+               "correspondence on the serialised real MX and by a direct solution/rank oracle on generated models with a "
+               "constructed unique solution.",
+    level_note="Trusted: Lean kernel + standard axioms; the harness; CasADi's rewriting and is_zero are observed, not modelled "
+               "(theorems hold for every value-preserving engine); vector expansion, the SX round trip and the affine collapse are "
+               "checked by the direct oracle only.",
+    technique="Lean 4 proof (induction over passes/iterations, refinement of substitution) + pass-by-pass model/implementation correspondence + direct solution oracle",
+)
 READY = False
